@@ -292,6 +292,18 @@ def do_replay(pid, path):
         print("no such replay file")
         return 2
     print(json.dumps(payload, indent=1)[:4000])
+    cx = payload.get("counterexample")
+    if isinstance(cx, dict) and cx.get("enum_digits"):
+        # native bounded harness: re-run exactly the failing choice vector on the real code of the current tree
+        d, target = kani_run.crate_dir(REPO)
+        exe, err = kani_run.build_replay(REPO, d, target)
+        if exe is None:
+            print("replay binary did not build:", err[-500:])
+            return 2
+        digits = ",".join(x.strip() for x in cx["enum_digits"].strip("[]").split(",") if x.strip())
+        p = subprocess.run([exe, "--case", cx["harness"], digits], capture_output=True, text=True, env=dict(os.environ, RUST_BACKTRACE="0"))
+        print("replay: %s --case %s %s -> exit %d\n%s" % (exe, cx["harness"], digits, p.returncode, p.stdout[-1500:]))
+        return 1 if p.returncode == 101 else (0 if p.returncode == 0 else 2)
     if payload.get("counterexample") and payload.get("paired_harness") or payload.get("harness"):
         h = payload.get("harness") or payload.get("paired_harness")
         r = kani_run.replay_concrete(h, payload["counterexample"], REPO, os.path.join(ROOT, ".work", pid, "replay"))
